@@ -11,6 +11,8 @@ import (
 	"os/exec"
 	"path/filepath"
 	"regexp"
+	"runtime/debug"
+	"runtime/pprof"
 	"sort"
 	"strconv"
 	"strings"
@@ -346,6 +348,9 @@ func loadKnown() ([]*sym.KnownFinding, error) {
 }
 
 func main() {
+	if os.Getenv("GOGC") == "" {
+		debug.SetGCPercent(150)
+	}
 	if len(os.Args) < 2 {
 		fmt.Fprintln(os.Stderr, "usage: verif check <Cxx> [--tier quick|thorough] | run <Harness> | replay <file> | list")
 		os.Exit(2)
@@ -387,6 +392,7 @@ func cmdRun(args []string) int {
 	tier := fs.String("tier", "quick", "")
 	verbose := fs.Bool("v", false, "")
 	workersF := fs.Int("w", 8, "")
+	prof := fs.String("cpuprofile", "", "")
 	if len(args) < 1 {
 		return 2
 	}
@@ -405,6 +411,29 @@ func cmdRun(args []string) int {
 		fmt.Println(err)
 		return 2
 	}
+	if *prof != "" {
+		f, _ := os.Create(*prof)
+		pprof.StartCPUProfile(f)
+		defer pprof.StopCPUProfile()
+	}
+	if os.Getenv("VERIF_STEPPROFILE") != "" {
+		sym.StepProfile = map[string]int{}
+		*workersF = 1
+		defer func() {
+			type kv struct {
+				k string
+				v int
+			}
+			var l []kv
+			for k, v := range sym.StepProfile {
+				l = append(l, kv{k, v})
+			}
+			sort.Slice(l, func(i, j int) bool { return l[i].v > l[j].v })
+			for i := 0; i < 25 && i < len(l); i++ {
+				fmt.Printf("%10d %s\n", l[i].v, l[i].k)
+			}
+		}()
+	}
 	re := regexp.MustCompile("^(" + name + ")$")
 	for _, h := range ld.harness {
 		if !re.MatchString(h.Name) {
@@ -418,10 +447,10 @@ func cmdRun(args []string) int {
 
 func printResult(res *sym.HarnessResult, detail bool) {
 	st := res.Stats
-	fmt.Printf("== %s: paths=%d completed=%d infeasible=%d asserted=%d panicked=%d unsupported=%d unwind=%d budget=%d bound=%d engineerr=%d | obligations=%d discharged=%d inconclusive=%d | queries=%d (unsat %d sat %d unknown %d cache %d) solver %.1fs wall %.1fs complete=%v\n",
+	fmt.Printf("== %s: paths=%d completed=%d infeasible=%d asserted=%d panicked=%d unsupported=%d unwind=%d budget=%d bound=%d engineerr=%d | obligations=%d discharged=%d inconclusive=%d | queries=%d (unsat %d sat %d unknown %d cache %d) solver %.1fs pathtime %.1fs steps %d wall %.1fs complete=%v\n",
 		res.Name, st.Paths, st.Completed, st.Infeasible, st.Asserted, st.Panicked, st.Unsupported, st.UnwindExceeded, st.BudgetCut, st.BoundCut, st.EngineErrors,
 		st.Obligations, st.Discharged, st.Inconclusive,
-		res.SolverStats.Queries, res.SolverStats.Unsat, res.SolverStats.Sat, res.SolverStats.Unknown, res.SolverStats.CacheHits, res.SolverStats.Time.Seconds(), res.Wall.Seconds(), res.Complete)
+		res.SolverStats.Queries, res.SolverStats.Unsat, res.SolverStats.Sat, res.SolverStats.Unknown, res.SolverStats.CacheHits, res.SolverStats.Time.Seconds(), st.PathTime.Seconds(), st.Steps, res.Wall.Seconds(), res.Complete)
 	if !detail {
 		return
 	}
